@@ -466,7 +466,10 @@ def _run_path(folder, spec: dict, path: str, tag: str):
     """run one conversion path on the real code.  Returns (findings, info): findings = list of (signature, summary)."""
     findings = []
     info = {"rejected": None, "stages": 0}
-    orig = _build(spec, name=spec["name"] + tag)
+    try:
+        orig = _build(spec, name=spec["name"] + tag)
+    except Exception as e:  # noqa  (every generated spec is a valid dataset: right scale lengths, finite scales, >= 2 axes)
+        return [(f"api:valid-dataset-refused:{type(e).__name__}", f"building the dataset through the DataSet API raised {type(e).__name__}: {e}")], info
     cur = orig
     stages = path.split(">")
     step_no = 0
@@ -826,7 +829,7 @@ def _gen_folder_ops(rng, n: int) -> list:
         if r < 0.7:
             serial += 1
             ops.append(["write", rng.choice(DS_NAMES), rng.choice("hhhhtttto"), int(rng.random() < 0.35),
-                        int(rng.random() < 0.1), serial])
+                        rng.choice([0] * 16 + [1, 1, 2, 3]), serial])
         elif r < 0.9:
             ops.append(["read", rng.choice(DS_NAMES)])
         else:
@@ -845,10 +848,15 @@ def _run_folder_ops(ops: list):
         for op in ops:
             if op[0] == "write":
                 _, name, fmt, ow, fail, serial = op
-                ds = DataSet("tmp", data=np.full((1, 2), float(serial)))
+                # `fail` = why the format writer will refuse: 1 reserved attribute name, 2 line break in an attribute
+                # name (text only), 3 an integer float64 cannot hold (text only)
+                ds = DataSet("tmp", data=(np.array([[2**53 + 1, serial]], dtype=np.int64) if fail == 3
+                                          else np.full((1, 2), float(serial))))
                 ds.name = name
-                if fail:
+                if fail == 1:
                     ds.attrs["QMI_DataSet_bad"] = 1
+                if fail == 2:
+                    ds.attrs["a\nb"] = 1
                 ds.attrs["serial"] = serial
                 before = _dir_state(td)
                 try:
@@ -934,8 +942,10 @@ def _gen_store_ops(rng, n: int) -> list:
                 ops.append(["mk", lab, None, None, None, clock])
             else:
                 ops.append(["mk", lab, rng.choice([None, 1e9]), rng.choice([None, "20240101"]), rng.choice([None, "120000"]), clock])
-        else:
+        elif r < 0.88:
             ops.append(["latest", rng.choice(LOOKUP_), None if rng.random() < 0.6 else rng.choice(DATES[:12])])
+        else:
+            ops.append(["list", rng.choice(LOOKUP_ + [None, None])])
     return ops
 
 
@@ -1002,6 +1012,32 @@ def _run_store_ops(ops: list):
                         outs.append("exc:" + type(e).__name__)
                     finally:
                         dsm.time = real_time
+                elif op[0] == "list":
+                    lab = op[1]
+                    lines.append(f"s list {_opt(lab)}")
+                    try:
+                        fl = store.list_folders(lab)
+                    except Exception as e:  # noqa
+                        outs.append("exc:" + type(e).__name__)
+                        continue
+                    outs.append(";".join(_cps(x.date_str) + "/" + _cps(os.path.basename(x.folder_path)) + "/" + _cps(x.time_str)
+                                         for x in fl) or "-")
+                    # the property's lookup and the listing must agree: same folders as handed out, oldest first,
+                    # and the last one is what find_latest_folder returns
+                    want = sorted((int(e[1]), int(e[2]), e[3]) for e in registry if (lab is None or e[0] == lab) and os.path.isdir(e[3]))
+                    got = [x.folder_path for x in fl]
+                    if sorted(got) != sorted(w[2] for w in want):
+                        bad.append(("list-folders:not-the-folders-of-the-label", f"list_folders({lab!r}) -> {[os.path.basename(g) for g in got]}, "
+                                    f"folders {[os.path.basename(w[2]) for w in want]}"))
+                    elif [(int(x.date_str), int(x.time_str)) for x in fl] != sorted((w[0], w[1]) for w in want):
+                        bad.append(("list-folders:not-oldest-first", f"list_folders({lab!r}) -> {[(x.date_str, x.time_str) for x in fl]}"))
+                    elif lab is not None:
+                        try:
+                            lf = store.find_latest_folder(lab)
+                        except Exception:  # noqa
+                            lf = False
+                        if lf is not False and ((lf is None) != (not fl) or (lf is not None and (lf.date_str, lf.time_str) != (fl[-1].date_str, fl[-1].time_str))):
+                            bad.append(("list-folders:disagrees-with-find-latest", f"label {lab!r}: latest {lf!r}, listing ends with {fl[-1] if fl else None!r}"))
                 else:
                     _, lab, d = op
                     lines.append(f"s latest {_cps(lab)} {_opt(d)}")
@@ -1076,7 +1112,14 @@ def _family_histories() -> list:
             own = [["mk", a, None, "20240101", "090000", 0.0], ["mk", a, None, "20240101", "093000", 0.0],
                    ["mk", a, None, "20231231", "235959", 0.0]]
             out.append(own[:1] + hist + own[1:] + [["latest", a, None], ["latest", a, "20240101"], ["latest", a, "20240102"],
-                                                  ["latest", a, "20231231"]])
+                                                  ["latest", a, "20231231"], ["list", a], ["list", None]])
+    # date roll-over at (local) midnight and at the end of a month / year: consecutive seconds, different date folders
+    for ymd in ((2024, 3, 10), (2024, 2, 29), (2023, 12, 31)):
+        t0 = _time.mktime(ymd + (23, 59, 59, 0, 0, -1))
+        out.append([["mk", "lab", t0, None, None, t0], ["mk", "lab", t0 + 1.0, None, None, t0], ["mk", "lab", t0, None, None, t0],
+                    ["latest", "lab", None], ["list", "lab"],
+                    ["mk", "x", None, None, None, t0 + 0.5], ["mk", "x", None, None, None, t0 + 0.9], ["mk", "x", None, None, None, t0 + 1.0],
+                    ["mk", "x", None, None, None, t0 + 86400.0], ["latest", "x", None], ["list", "x"], ["list", None]])
     return out
 
 
@@ -1099,7 +1142,7 @@ def _section_store(ctx: Ctx, res: Result, n_folder: int, n_store: int, use_model
             res.count(f"{kind}_histories")
             for ln_, o in zip(lines, outs):
                 opk = ln_.split(" ")[1]
-                res.count(f"{kind}_{opk}_" + (o if o.startswith("exc:") else ("listing" if opk == "ls" else o.split(":")[0])))
+                res.count(f"{kind}_{opk}_" + (o if o.startswith("exc:") else ("listing" if opk == "ls" else ("empty" if o == "-" else ("folders" if opk == "list" else o.split(":")[0])))))
             if i < 2:
                 res.sample({kind + "_ops": ops[:8], "impl_out": outs[1:9]})
             done = set()
@@ -1124,6 +1167,243 @@ def _section_store(ctx: Ctx, res: Result, n_folder: int, n_store: int, use_model
                     break
 
 
+# --- C2. the text writer's exactness check; two threads inside make_folder ------------------------------------
+
+def _section_exact(ctx: Ctx, res: Result, n: int, use_model=True):
+    """int(float(v)) vs the model's toF64, and the writer's accept / refuse decision on integer arrays"""
+    import io
+    import numpy as np
+    from qmi.data.dataset import DataSet, write_dataset_to_text, read_dataset_from_text
+    rng = ctx.rng
+    lines, impl = [], []
+    vals = [0, 1, 2**53 - 1, 2**53, 2**53 + 1, 2**53 + 2, 2**53 + 3, 2**54 - 1, 2**54 + 2, 2**54 + 4, 2**54 + 6, 2**60, 2**60 + 2**7, 2**60 + 2**8,
+            2**63 - 1, 2**63, 2**63 + 2**10, 2**63 + 2**11, 2**64 - 1, 2**64 - 2**11, 2**64 - 2**10, 2**64 - 2**10 - 1, 2**53 + 2**52 + 1]
+    for _ in range(n):
+        b = rng.randint(50, 64)
+        k = max(0, b - 53)
+        base = rng.getrandbits(b) | (1 << (b - 1))
+        vals.append(rng.choice([base, (base >> k) << k, ((base >> k) << k) + (1 << max(k - 1, 0)), ((base >> k) << k) + (1 << max(k - 1, 0)) + rng.choice([-1, 1]),
+                                (1 << b) - 1, (1 << b) - rng.randint(1, 1 << max(k, 1))]) % 2**64)
+    for v in vals:
+        lines.append(f"x f64 {v}")
+        impl.append(str(int(float(v))))
+        res.count("exact_f64_probe")
+    arrays = [[v] for v in vals[:40]] + [[rng.choice(vals) for _ in range(rng.randint(1, 4))] for _ in range(n // 2)]
+    for arr in arrays:
+        signed = all(v < 2**63 for v in arr)
+        neg = signed and rng.random() < 0.5
+        data = np.array([[-v if neg else v for v in arr] + [0]], dtype=np.int64 if signed else np.uint64)
+        as_scale = rng.random() < 0.25 and len(arr) >= 1
+        if as_scale:
+            ds = DataSet("e", data=np.zeros((len(arr), 1)))
+            ds.set_axis_scale(0, data[0, :-1])
+        else:
+            ds = DataSet("e", data=data)
+        fh = io.StringIO()
+        try:
+            write_dataset_to_text(ds, fh)
+            out = "0"
+        except ValueError:
+            out = "1"
+        lines.append("x refuses " + ",".join(map(str, arr)))
+        impl.append(out)
+        res.count("exact_writer_" + ("refused" if out == "1" else "accepted"))
+        res.note_case(("exact", tuple(arr), neg, as_scale))
+        # the property, directly: an accepted integer array reads back equal; a refused one really cannot be held;
+        # a refusal happens before the first byte is written
+        inexact = any(int(float(v)) != v for v in arr)
+        if out == "0":
+            fh.seek(0)
+            back = read_dataset_from_text(fh)
+            got = back.axis_scale[0].tolist() if as_scale else back.data.tolist()
+            exp = ds.axis_scale[0].tolist() if as_scale else ds.data.tolist()
+            if got != exp:
+                res.failures.append(Failure("text:mismatch:" + ("scale" if as_scale else "data") + ":int-beyond-2^53",
+                                            f"integer array {exp} written as text reads back {got}",
+                                            {"kind": "exact", "arr": arr, "neg": neg, "scale": as_scale}))
+        else:
+            if not inexact:
+                res.failures.append(Failure("text:write-rejected-unexpectedly:exact-integers", f"text writer refused exactly representable {arr}",
+                                            {"kind": "exact", "arr": arr, "neg": neg, "scale": as_scale}))
+            if fh.getvalue():
+                res.failures.append(Failure("text:refused-write-left-partial-content", f"refused write of {arr} had already written {len(fh.getvalue())} chars",
+                                            {"kind": "exact", "arr": arr, "neg": neg, "scale": as_scale}))
+    if use_model:
+        model = LeanDriver("drv_c17").run(lines)
+        res.traces_validated += len(lines)
+        k = diff_streams(lines, impl, model)
+        if k is not None:
+            res.broken.append(Broken("correspondence", "toF64 / refusesInts vs int(float(v)) / write_dataset_to_text",
+                                     f"op={lines[k]!r} impl={impl[k]!r} model={model[k]!r}", case={"kind": "exactline", "line": lines[k]}))
+
+
+def _section_api(ctx: Ctx, res: Result, n: int, use_model=True):
+    """DataSet constructor and setters: what is accepted, what is refused (and with which exception type)"""
+    import numpy as np
+    from qmi.data.dataset import DataSet
+    rng = ctx.rng
+    lines, impl = [], []
+    fixed = [[], [3], [2, 3], [1, 1], [2, 0], [0, 2], [2, -1], [-1, 2], [2, 3, 4], [1, 1, 1, 1], [2, 1, 0, 2], [4, 1]]
+    for i in range(n + len(fixed)):
+        shape = fixed[i] if i < len(fixed) else [rng.choice([1, 2, 3, 4, 0, -1] if rng.random() < 0.25 else [1, 2, 3, 4]) for _ in range(rng.choice([0, 1, 2, 2, 3, 3, 4]))]
+        lines.append("d new " + (",".join(map(str, shape)) or "-"))
+        ds = None
+        try:
+            if rng.random() < 0.5 or any(x < 0 for x in shape):
+                ds = DataSet("n", shape=tuple(shape))
+            else:
+                ds = DataSet("n", data=np.zeros(tuple(shape)))
+            impl.append("ok " + ",".join(map(str, ds.data.shape[:-1])) + ";" + str(ds.data.shape[-1]))
+        except Exception as e:  # noqa
+            impl.append("exc:" + type(e).__name__)
+        res.count("api_new_" + impl[-1].split(" ")[0])
+        res.note_case(("api", tuple(shape)), nontrivial=len(shape) >= 2)
+        if ds is None:
+            continue
+        nax = ds.data.ndim - 1
+        for _ in range(rng.randint(0, 5)):
+            k = rng.random()
+            ax = rng.randrange(nax) if rng.random() < 0.7 else rng.choice([-1, 0, 1, 2, nax - 1, nax, nax + 1])
+            if k < 0.55:
+                ln = ds.data.shape[ax] if (0 <= ax < nax and rng.random() < 0.7) else rng.choice([1, 2, 3, 0, ds.data.shape[-1]])
+                fin = rng.random() < 0.85
+                vals = np.arange(ln, dtype=np.float64)
+                if not fin and ln > 0:
+                    vals[rng.randrange(ln)] = rng.choice([np.inf, -np.inf, np.nan])
+                if not fin and ln == 0:
+                    fin = True
+                lines.append(f"d scale {ax} {ln} {int(fin)}")
+                try:
+                    ds.set_axis_scale(ax, vals)
+                    impl.append("ok " + ",".join("~" if x is None else str(len(x)) for x in ds.axis_scale))
+                except Exception as e:  # noqa
+                    impl.append("exc:" + type(e).__name__)
+                res.count("api_scale_" + impl[-1].split(" ")[0])
+                # directly: a scale is accepted iff it belongs to an existing axis, has that axis' length and is finite
+                should = 0 <= ax < nax and ln == ds.data.shape[ax] and fin
+                if should != impl[-1].startswith("ok"):
+                    sig = "api:valid-scale-refused" if should else "api:invalid-scale-accepted"
+                    if not any(f.signature == sig for f in res.failures):
+                        res.failures.append(Failure(sig, f"DataSet{tuple(ds.data.shape)}.set_axis_scale({ax}, <{ln} values, finite={fin}>) -> {impl[-1]}",
+                                                    {"kind": "api-scale", "shape": list(ds.data.shape), "axis": ax, "len": ln, "finite": fin, "signature": sig}))
+            elif k < 0.8:
+                lines.append(f"d axis {ax}")
+                try:
+                    (ds.set_axis_label if rng.random() < 0.5 else ds.set_axis_unit)(ax, "l")
+                    impl.append("ok")
+                except Exception as e:  # noqa
+                    impl.append("exc:" + type(e).__name__)
+            else:
+                col = rng.choice([-1, 0, 1, ds.data.shape[-1] - 1, ds.data.shape[-1], ds.data.shape[-1] + 1])
+                lines.append(f"d col {col}")
+                try:
+                    (ds.set_column_label if rng.random() < 0.5 else ds.set_column_unit)(col, "c")
+                    impl.append("ok")
+                except Exception as e:  # noqa
+                    impl.append("exc:" + type(e).__name__)
+    if use_model:
+        model = LeanDriver("drv_c17").run(lines)
+        res.traces_validated += len(lines)
+        k = diff_streams(lines, impl, model)
+        if k is not None:
+            j = max(i for i in range(k + 1) if lines[i].startswith("d new"))
+            res.broken.append(Broken("correspondence", "DataSetApi vs DataSet.__init__ / setters",
+                                     f"ops={lines[j:k + 1]!r} impl={impl[k]!r} model={model[k]!r}", case={"kind": "api", "lines": lines[j:k + 1]}))
+
+
+def _race_make_folder(same: bool, barrier_at: str, preexisting_date: bool):
+    """two real threads inside DataStore.make_folder; both are held after `barrier_at` ('isdir' of the date path or
+    'exists' of the folder path) has answered, so both go on with the same stale answer"""
+    import qmi.data.datastore as dsm
+    real_os = dsm.os
+    bar = threading.Barrier(2, timeout=5)
+    seen = set()
+    racers = set()
+
+    class _Path:
+        def __getattr__(self, k):
+            return getattr(real_os.path, k)
+
+        def _hold(self, what):
+            me = threading.get_ident()
+            if what == barrier_at and me in racers and (what, me) not in seen:
+                seen.add((what, me))
+                try:
+                    bar.wait()
+                except threading.BrokenBarrierError:
+                    pass
+
+        def exists(self, p):
+            r = real_os.path.exists(p)
+            self._hold("exists")
+            return r
+
+        def isdir(self, p):
+            r = real_os.path.isdir(p)
+            self._hold("isdir")
+            return r
+
+    class _Os:
+        path = _Path()
+
+        def __getattr__(self, k):
+            return getattr(real_os, k)
+
+    out = {}
+    with tempfile.TemporaryDirectory(prefix="c17race_") as td:
+        if preexisting_date:
+            real_os.mkdir(real_os.path.join(td, "20240101"))
+        store = dsm.DataStore(td)
+        dsm.os = _Os()
+        try:
+            def run(i):
+                racers.add(threading.get_ident())
+                try:
+                    f = store.make_folder("lab" if same else "lab%d" % i, date_str="20240101", time_str="120000")
+                    out[i] = ("ok", real_os.path.relpath(f.folder_path, td))
+                except Exception as e:  # noqa
+                    out[i] = ("exc:" + type(e).__name__, None)
+            ths = [threading.Thread(target=run, args=(i,), daemon=True) for i in (0, 1)]
+            for t in ths:
+                t.start()
+            for t in ths:
+                t.join(WATCHDOG)
+        finally:
+            dsm.os = real_os
+        out["dirs"] = sorted(real_os.listdir(real_os.path.join(td, "20240101"))) if real_os.path.isdir(real_os.path.join(td, "20240101")) else None
+    return out
+
+
+def _race_oracle(same, out):
+    oks = [i for i in (0, 1) if out.get(i, ("?",))[0] == "ok"]
+    if any(i not in out for i in (0, 1)):
+        return ("store:concurrent-make-folder-hangs", f"{out}")
+    if same and len(oks) == 2:
+        return ("store:same-folder-handed-out-twice", f"two concurrent make_folder('lab', 20240101, 120000) both returned {out[0][1]!r}")
+    if same and len(oks) == 0:
+        return ("store:concurrent-make-folder-nobody-wins", f"{out}")
+    if same and out[1 - oks[0]][0] != "exc:FileExistsError":
+        return ("store:concurrent-make-folder-loser-not-told", f"{out}")
+    if not same and len(oks) != 2:
+        return ("store:concurrent-make-folder-different-labels-refused", f"{out}")
+    if any(out[i][1] is not None and os.path.basename(out[i][1]) not in (out["dirs"] or []) for i in oks):
+        return ("store:new-folder-not-created", f"{out}")
+    return None
+
+
+def _section_race(ctx: Ctx, res: Result):
+    for same in (True, False):
+        for barrier_at in ("isdir", "exists", "none"):
+            for pre in (False, True):
+                out = _race_make_folder(same, barrier_at, pre)
+                res.note_case(("race", same, barrier_at, pre))
+                res.count("race_scenarios")
+                res.count("race_outcome_" + "+".join(sorted(out[i][0] for i in (0, 1) if i in out)))
+                o = _race_oracle(same, out)
+                if o and not any(f.signature == o[0] for f in res.failures):
+                    res.failures.append(Failure(o[0], o[1], {"kind": "race", "same": same, "barrier_at": barrier_at, "pre": pre, "signature": o[0]}))
+
+
 # ---------------------------------------------------------------------------
 # D. HDF5Recorder: real h5py, writer thread line-stepped by the harness
 # ---------------------------------------------------------------------------
@@ -1140,22 +1420,27 @@ def _writer_ast_info():
     src = (core.REPO / "qmi/data/hdf5recorder.py").read_text()
     tree = ast.parse(src)
     run = None
+    withs = []
     for node in ast.walk(tree):
         if isinstance(node, ast.ClassDef) and node.name == "_HDF5RecorderThread":
             for f in node.body:
-                if isinstance(f, ast.FunctionDef) and f.name == "run":
-                    run = f
+                # the writer loop: the method (run() or a helper it calls) whose `with self._condition:` sits in a loop
+                if isinstance(f, ast.FunctionDef) and f.name not in ("record", "set_attribute", "_request_shutdown"):
+                    ws = [n for n in ast.walk(f) if isinstance(n, ast.With)
+                          and any(isinstance(i.context_expr, ast.Attribute) and i.context_expr.attr == "_condition" for i in n.items)
+                          and any(isinstance(l, ast.While) and n in ast.walk(l) for l in ast.walk(f))]
+                    if ws:
+                        run, withs = f, ws
     if run is None:
-        raise RuntimeError("_HDF5RecorderThread.run not found")
-    withs = [n for n in ast.walk(run) if isinstance(n, ast.With)
-             and any(isinstance(i.context_expr, ast.Attribute) and i.context_expr.attr == "_condition" for i in n.items)]
+        raise RuntimeError("writer loop of _HDF5RecorderThread not found")
     if len(withs) != 1:
-        raise RuntimeError(f"expected exactly one `with self._condition:` in run(), found {len(withs)}")
+        raise RuntimeError(f"expected exactly one `with self._condition:` in the writer loop, found {len(withs)}")
     w = withs[0]
     loops = [n for n in ast.walk(run) if isinstance(n, ast.While) and w in ast.walk(n)]
     if not loops:
         raise RuntimeError("the critical section is not inside a loop")
-    return {"with": w.lineno, "cs_last": w.body[-1].lineno, "cs_end": w.end_lineno, "loop": min(l.lineno for l in loops)}
+    return {"with": w.lineno, "cs_last": w.body[-1].lineno, "cs_end": w.end_lineno, "loop": min(l.lineno for l in loops),
+            "method": run.name}
 
 
 class _CoopCond:
@@ -1222,9 +1507,13 @@ class _Stepper:
 
     def local_trace(self, frame, event, arg):
         if event == "line":
+            self.unwinding = False
             self._gate(frame, frame.f_lineno)
+        elif event == "exception":
+            self.unwinding = True       # cleared by the next line event if the frame handles the exception itself
         elif event == "return":
-            self._classify(frame, None)
+            if not getattr(self, "unwinding", False):
+                self._classify(frame, None)     # regular end of the write loop (an unwinding frame is the model's `crash`)
         return self.local_trace
 
     def _capture(self, frame):
@@ -1287,7 +1576,7 @@ class _Stepper:
         shared = {k: [list(map(int, b)) for b in v] for k, v in dict(t._recordings).items()} if t is not None else {}
         sattrs = {k: dict(v) for k, v in dict(t._attributes).items()} if t is not None else {}
         sd = bool(t._shutdown_requested) if t is not None else False
-        L = self.frozen if (self.phase == "flushing" and self.frozen is not None) else self.snap_locals
+        L = self.frozen if (self.phase in ("flushing", "failed") and self.frozen is not None) else self.snap_locals
         return ("S{%s} K%d A{%s} L{%s} N{%s} P{%s} sd%d q%d %s" % (
             self._bm(shared), len(shared), self._am(sattrs), self._bm(L["recordings"]), self._am(L["new_attributes"]),
             self._am(L["pending_attributes"]), int(sd), int(L["quitflag"]), self.phase))
@@ -1325,7 +1614,7 @@ def _run_recorder(scn: dict):
     info = _writer_ast_info()
     orig_run = hr._HDF5RecorderThread.run
     names = {f"d{i}": i for i in range(8)}
-    st = _Stepper(orig_run.__code__, info, names)
+    st = _Stepper(getattr(hr._HDF5RecorderThread, info["method"]).__code__, info, names)
 
     def traced_run(self):
         st.thread_obj = self
@@ -1336,6 +1625,10 @@ def _run_recorder(scn: dict):
             st.error = "hang:" + str(e)
         except BaseException as e:  # noqa
             st.error = "writer-exception:" + type(e).__name__ + ":" + str(e)[:80]
+            # the write loop ended with an exception: the model's `crash`
+            crashed_in = st.phase
+            st.phase = "failed"
+            st.events.append(("crash" if crashed_in == "flushing" else "crash-outside-flush", st.state_line()))
         finally:
             sys.settrace(None)
             with st.cv:
@@ -1353,9 +1646,25 @@ def _run_recorder(scn: dict):
             lines.append("r " + kind)
             outs.append(snap)
 
+    real_h5py = hr.h5py
+    opens = [0]
+
+    class _H5:     # I/O fault injection: the `fail_open`-th h5py.File() call of the writer raises OSError
+        def __getattr__(self, k):
+            return getattr(real_h5py, k)
+
+        def File(self, *a, **kw):
+            opens[0] += 1
+            if scn.get("fail_open") is not None and opens[0] - 1 == scn["fail_open"]:
+                raise OSError("injected: unable to open file")
+            return real_h5py.File(*a, **kw)
+
+    old_hook = threading.excepthook
     with tempfile.TemporaryDirectory(prefix="c17r_") as td:
         fn = os.path.join(td, "rec.h5")
         hr._HDF5RecorderThread.run = traced_run
+        hr.h5py = _H5()
+        threading.excepthook = lambda args: None
         rec = None
         try:
             rec = hr.HDF5Recorder(fn, write_interval=0.001, keep_open=bool(scn.get("keep_open")))
@@ -1367,9 +1676,10 @@ def _run_recorder(scn: dict):
             for item in scn["schedule"]:
                 if item[0] == "W":
                     for _ in range(item[1]):
-                        if not st.step():
-                            break
+                        alive = st.step()
                         drain_events()
+                        if not alive:
+                            break
                 elif item[0] in ("rec", "attr"):
                     # a client call takes the condition lock: let the writer leave its critical section first
                     guard = 0
@@ -1415,14 +1725,18 @@ def _run_recorder(scn: dict):
                     th.join(WATCHDOG)
                     if th.is_alive():
                         raise _Hang("close() does not return")
-                    if "exc" in box:
-                        result["error"] = "close-raised:" + type(box["exc"]).__name__
                     drain_events()
+                    result["close"] = ("exc:" + type(box["exc"]).__name__) if "exc" in box else "ok"
+                    lines.append("r close")
+                    outs.append(result["close"])
                     break
             if not closed:
                 raise RuntimeError("schedule without close")
-            if st.error:
+            result["crashed"] = bool(st.error and st.error.startswith("writer-exception:OSError:injected"))
+            if st.error and not result["crashed"]:
                 result["error"] = st.error
+            elif result.get("close") != "ok" and not result["crashed"]:
+                result["error"] = "close-raised:" + str(result.get("close"))
             file_state = {}
             if os.path.exists(fn):
                 with h5py.File(fn, "r") as f:
@@ -1456,6 +1770,8 @@ def _run_recorder(scn: dict):
             result["error"] = "hang:" + str(e)
         finally:
             hr._HDF5RecorderThread.run = orig_run
+            hr.h5py = real_h5py
+            threading.excepthook = old_hook
             st.release()
             if rec is not None and getattr(rec, "_recorder_thread", None) is not None:
                 try:
@@ -1473,6 +1789,19 @@ def _recorder_oracle(r: dict):
         return (f"recorder:{kind}", r["error"])
     file = r.get("file", {})
     post = r.get("post") or {}
+    if r.get("crashed"):
+        # the writer met an I/O error: data may be missing, but then close() must say so; nothing may be duplicated
+        missing = {d: [x for x in vals if x not in file.get(d, ([], {}))[0]] for d, vals in r["recorded"].items()}
+        missing = {d: m for d, m in missing.items() if m}
+        if missing and r.get("close") == "ok":
+            return ("recorder:writer-error-not-reported-at-close",
+                    f"the writer thread died on an I/O error; blocks {missing} are not in the file, close() returned normally")
+        for d, (vals, _) in file.items():
+            if vals != r["recorded"].get(d, [])[:len(vals)]:
+                return ("recorder:blocks-out-of-order", f"dataset d{d}: recorded {r['recorded'].get(d)}, file {vals}")
+        if post.get("record") == "accepted":
+            return ("recorder:record-after-close-accepted-silently", "record() after close() returned normally")
+        return None
     if post.get("record") == "accepted":
         return ("recorder:record-after-close-accepted-silently", "record() after close() returned normally; the block is not in the file")
     if post and not post.get("file_unchanged", True):
@@ -1495,6 +1824,77 @@ def _recorder_oracle(r: dict):
         if r["recorded"].get(d) and file.get(d, ([], {}))[1] != exp:
             return ("recorder:attributes-lost", f"dataset d{d}: set {exp}, file {file.get(d, ([], {}))[1]}")
     return None
+
+
+def _run_recorder_fault(kind: str, keep_open: bool, fail_at: int = 0):
+    """the writer thread meets an I/O error: `nodir` = the target directory does not exist; `open-fails` = the
+    `fail_at`-th h5py.File() call of the writer raises OSError (free-running writer, real time only to let flush
+    cycles happen; the verdict does not depend on timing: blocks missing from the file AND close() silent)"""
+    import h5py
+    import numpy as np
+    import qmi.data.hdf5recorder as hr
+    real_h5py = hr.h5py
+    calls = [0]
+
+    class _H5:
+        def __getattr__(self, k):
+            return getattr(real_h5py, k)
+
+        def File(self, *a, **kw):
+            calls[0] += 1
+            if kind == "open-fails" and calls[0] - 1 == fail_at:
+                raise OSError("injected: unable to open file")
+            return real_h5py.File(*a, **kw)
+
+    old_hook = threading.excepthook
+    out = {"closed": None, "recorded": [], "file": []}
+    with tempfile.TemporaryDirectory(prefix="c17rf_") as td:
+        fn = os.path.join(td, "missing_dir" if kind == "nodir" else "", "rec.h5")
+        threading.excepthook = lambda args: None
+        hr.h5py = _H5()
+        try:
+            rec = hr.HDF5Recorder(fn, write_interval=0.002, keep_open=keep_open)
+            for i in range(4):
+                rec.record("d0", np.array([50 + i], dtype=np.int64))
+                out["recorded"].append(50 + i)
+                t0 = _time.monotonic()
+                while rec._recorder_thread.is_alive() and rec._recorder_thread._recordings and _time.monotonic() - t0 < 2.0:
+                    _time.sleep(0.002)
+            try:
+                rec.close()
+                out["closed"] = "ok"
+            except Exception as e:  # noqa
+                out["closed"] = "exc:" + type(e).__name__
+        finally:
+            hr.h5py = real_h5py
+            threading.excepthook = old_hook
+        if os.path.exists(fn):
+            with h5py.File(fn, "r") as f:
+                out["file"] = [int(x) for x in f["d0"][:]] if "d0" in f else []
+    return out
+
+
+def _fault_oracle(out):
+    missing = [x for x in out["recorded"] if x not in out["file"]]
+    if missing and out["closed"] == "ok":
+        return ("recorder:writer-error-not-reported-at-close",
+                f"the writer thread died on an I/O error; blocks {missing} of {out['recorded']} are not in the file, close() returned normally")
+    if not missing and out["file"] != out["recorded"]:
+        return ("recorder:blocks-out-of-order", f"recorded {out['recorded']}, file {out['file']}")
+    return None
+
+
+def _section_recorder_faults(ctx: Ctx, res: Result):
+    for kind, keep, at in (("nodir", False, 0), ("nodir", True, 0), ("open-fails", False, 0), ("open-fails", False, 1),
+                           ("open-fails", False, 2), ("open-fails", True, 0), ("open-fails", False, 99)):
+        out = _run_recorder_fault(kind, keep, at)
+        res.note_case(("rec-fault", kind, keep, at))
+        res.count("rec_fault_scenarios")
+        res.count("rec_fault_close_" + str(out["closed"]))
+        o = _fault_oracle(out)
+        if o and not any(f.signature == o[0] for f in res.failures):
+            res.failures.append(Failure(o[0], o[1] + f" [{kind}, keep_open={keep}, failing open #{at}]",
+                                        {"kind": "rec-fault", "fault": kind, "keep_open": keep, "fail_at": at, "signature": o[0]}))
 
 
 def _gen_rec_schedule(rng, serial_base=100):
@@ -1549,6 +1949,12 @@ def _fixed_rec_schedules():
             ["rec", 0, [1, 2]], ["rec", 0, [1, 2]], ["attr", 0, 0, 5], ["attr", 0, 0, 5], ["W", C], ["rec", 0, []], ["W", C],
             ["attr", 0, 0, 6], ["close"]]})
         out.append({"keep_open": keep, "schedule": [["close"]]})
+        for k in (0, 1, 2):
+            # the k-th open of the HDF5 file fails: everything written before stays, close() must raise
+            out.append({"keep_open": keep, "fail_open": k, "schedule": [
+                ["rec", 0, [1]], ["W", C], ["rec", 0, [2]], ["rec", 1, [3]], ["W", C], ["attr", 0, 0, 5], ["rec", 0, [4]], ["W", C],
+                ["rec", 1, [6]], ["close"]]})
+            out.append({"keep_open": keep, "fail_open": k, "schedule": [["rec", 0, [1, 2]], ["close"]]})
         out.append({"keep_open": keep, "schedule": [["attr", 0, 0, 1], ["W", C], ["W", C], ["close"]]})
     return out
 
@@ -1557,13 +1963,13 @@ def _shrink_rec(scn: dict, sig: str) -> dict:
     sched = list(scn["schedule"])
     i = 0
     while i < len(sched) - 1:
-        cand = {"keep_open": scn["keep_open"], "schedule": sched[:i] + sched[i + 1:]}
+        cand = {**scn, "schedule": sched[:i] + sched[i + 1:]}
         o = _recorder_oracle(_run_recorder(cand))
         if o and o[0] == sig:
             sched = cand["schedule"]
         else:
             i += 1
-    return {"keep_open": scn["keep_open"], "schedule": sched}
+    return {**scn, "schedule": sched}
 
 
 def _section_recorder(ctx: Ctx, res: Result, n_random: int, use_model=True, kmax=70, stride=1):
@@ -1645,8 +2051,12 @@ class C17(Prop):
         _section_layout_h5map(ctx, res, ctx.scale(120, 1200), ctx.scale(150, 1500))
         ctx.log("C store histories")
         _section_store(ctx, res, ctx.scale(150, 2500), ctx.scale(200, 3000))
+        _section_exact(ctx, res, ctx.scale(300, 5000))
+        _section_api(ctx, res, ctx.scale(400, 6000))
+        _section_race(ctx, res)
         ctx.log("D recorder")
         _section_recorder(ctx, res, ctx.scale(500, 9000), kmax=ctx.scale(70, 90))
+        _section_recorder_faults(ctx, res)
         return res
 
     def search(self, ctx: Ctx, broken) -> Result:
@@ -1735,6 +2145,52 @@ class C17(Prop):
         elif kind == "recorder":
             o = _recorder_oracle(_run_recorder(rp["scn"]))
             found = [o] if o else []
+        elif kind == "api-scale":
+            import numpy as np
+            from qmi.data.dataset import DataSet
+            ds = DataSet("n", shape=tuple(rp["shape"]))
+            vals = np.arange(rp["len"], dtype=np.float64)
+            if not rp["finite"]:
+                vals[0] = np.inf
+            try:
+                ds.set_axis_scale(rp["axis"], vals)
+                ok = True
+            except Exception:  # noqa
+                ok = False
+            should = 0 <= rp["axis"] < len(rp["shape"]) - 1 and rp["len"] == rp["shape"][rp["axis"]] and rp["finite"]
+            found = [] if ok == should else [("api:valid-scale-refused" if should else "api:invalid-scale-accepted", f"{rp}")]
+        elif kind == "rec-fault":
+            o = _fault_oracle(_run_recorder_fault(rp["fault"], rp["keep_open"], rp["fail_at"]))
+            found = [o] if o else []
+        elif kind == "race":
+            o = _race_oracle(rp["same"], _race_make_folder(rp["same"], rp["barrier_at"], rp["pre"]))
+            found = [o] if o else []
+        elif kind == "exact":
+            import io
+            import numpy as np
+            from qmi.data.dataset import DataSet, write_dataset_to_text, read_dataset_from_text
+            arr = [-v if rp["neg"] else v for v in rp["arr"]]
+            data = np.array([arr + [0]], dtype=np.int64 if all(abs(v) < 2**63 for v in arr) else np.uint64)
+            if rp["scale"]:
+                ds = DataSet("e", data=np.zeros((len(arr), 1)))
+                ds.set_axis_scale(0, data[0, :-1])
+            else:
+                ds = DataSet("e", data=data)
+            fh = io.StringIO()
+            try:
+                write_dataset_to_text(ds, fh)
+            except ValueError:
+                if all(int(float(v)) == v for v in rp["arr"]):
+                    found = [("text:write-rejected-unexpectedly:exact-integers", f"refused {arr}")]
+                elif fh.getvalue():
+                    found = [("text:refused-write-left-partial-content", f"{arr}")]
+            else:
+                fh.seek(0)
+                back = read_dataset_from_text(fh)
+                got = back.axis_scale[0].tolist() if rp["scale"] else back.data.tolist()
+                exp = ds.axis_scale[0].tolist() if rp["scale"] else ds.data.tolist()
+                if got != exp:
+                    found = [("text:mismatch:" + ("scale" if rp["scale"] else "data") + ":int-beyond-2^53", f"{exp} -> {got}")]
         else:
             return None
         if not found:
